@@ -217,6 +217,8 @@ def nt_hazard(d, op):
                 return False
         return False
     if kind == "unflatten":
+        if op[1] == "":
+            return False        # refused at the first key (ValueError), nothing is reached
         cur = O.o_copy(d)
         for k in list(cur.keys()):
             if op[1] in k:
@@ -441,6 +443,9 @@ def main():
         "locking, memmap/shared state and lazy/persistent containers are outside the model (lazy stacks / tensorclass are run against the oracle only)",
     ]
     run.build_and_audit(["TdVerif.Props.C04"])
+    import c04_pins
+    from common import REPO as _REPO
+    c04_pins.check(run, _REPO, "C04")
     drv = run.driver()
     rng = run.rng
     if run.replay:
@@ -503,7 +508,7 @@ def main():
 
     # ---- 3. extended domain: lazy stacks and tensorclass-held tensordicts against the oracle
     import c04_extended
-    c04_extended.run_extended(run, rng)
+    c04_extended.run_extended(run, rng, drv)
     run.finish("proof")
 
 
